@@ -250,6 +250,47 @@ theorem T_C19_delete_copy (nx ny nz i j k : Nat) (which : Bool) (hi : i < nx) (h
 
 /-! ### round sketches and shapes: `decide` on the tables generated from the current source -/
 
+/-! ### beyond the probe instances -/
+
+/-- `RoundSolidShape.core / .shell` for *every* sketch whose `core` is the first row of its grid (all disk sketches), any sizes:
+    `operations[:len(core)]` is exactly the first row, `operations[len(core):]` are exactly the other rows in order, and the two
+    lists partition the operations. -/
+theorem T_C19_core_shell_split {α : Type} (core : List α) (rest : List (List α)) :
+    (operations (core :: rest)).take core.length = core ∧
+    (operations (core :: rest)).drop core.length = operations rest ∧
+    (operations (core :: rest)).take core.length ++ (operations (core :: rest)).drop core.length = operations (core :: rest) := by
+  simp [operations]
+
+/-- `Annulus` / `ExtrudedRing` with any number of segments n > 0: every face has a point on the outer circle, so
+    `shell = all faces`, `core = []` (`RoundHollowShape.shell = operations`) is the split the property asks for — and no face
+    has *only* rim points (the inner circle is not on the outer surface). -/
+theorem T_C19_annulus (n k : Nat) (hk : k < n) :
+    (annulusCells n).length = n ∧ touches (annulusCells n) (annulusRim n) k = true ∧
+    (2 * k) ∈ (annulusCells n).getD k [] ∧ (2 * k) ∉ annulusRim n := by
+  refine ⟨by simp [annulusCells], ?_, ?_, ?_⟩
+  · simp only [touches, annulusCells, annulusRim]
+    simp only [List.getD_eq_getElem?_getD, List.getElem?_map, List.getElem?_range hk, Option.map_some, Option.getD_some,
+      List.any_cons, List.contains_eq_mem, List.mem_map, List.mem_range]
+    simp
+    exact Or.inr (Or.inl ⟨k, hk, rfl⟩)
+  · simp [annulusCells, hk]
+  · simp only [annulusRim, List.mem_map, List.mem_range, not_exists, not_and]
+    intro a _
+    omega
+
+/-- non-vacuity: a ring of 6 segments, the last face closes the ring -/
+example : (annulusCells 6).getD 5 [] = [10, 11, 1, 0] ∧ touches (annulusCells 6) (annulusRim 6) 5 = true := by decide
+
+/-- the parametric annulus is the one of the source: for the sizes in the generated table (4, 8, 5 segments) its faces and
+    rim, numbered by first appearance, are the table rows read off the probe instances -/
+def annulusMatchesTable (n : Nat) : Bool :=
+  match sketchRow? s!"Annulus{n}" with
+  | some r => r.2.1 == canonCells (annulusCells n) && r.2.2.2.2.2 == canonPoints (annulusCells n) (annulusRim n) &&
+      r.2.2.2.1 == [] && r.2.2.2.2.1 == List.range n
+  | none => false
+
+theorem T_C19_annulus_table : [4, 5, 8].all annulusMatchesTable = true := by decide
+
 /-- `WrappedDisk` is a disk inside a square: its middle ring is neither in `core` nor in `shell` (see below) -/
 def exceptions : List String := ["WrappedDisk", "RoundSolidShape(WrappedDisk)"]
 
